@@ -40,6 +40,30 @@ CLAIMED = {
   "design_ref": "DESIGN.md §5 C07",
   "note": "Trusted/assumed: DecRoundTrips (glibc printf + gcc/clang literal parsing correctly rounded); C99 typing of hex literals; INFINITY macro.",
  },
+ "C12": {
+  "technique": "Lean 4 refinement theorems: WASI fd I/O model (constants/tables regenerated from wasi.c) refines a POSIX file model + three-way history correspondence (real wasi.c / POSIX twin / Lean model)",
+  "text": "For every history of fd_read/write/pread/pwrite/seek/tell/close/path_open/filestat calls the model of wasi.c (whence/oflags/errno/filestat tables regenerated from the source on every run) is proved to perform exactly the POSIX operation the WASI specification names: iovecs gathered/scattered in order, positional I/O at the full 64-bit offset leaving the file position unchanged, seek/tell per lseek(2), filestat stores inside the ABI's struct for both ABIs, errno table rows. The real wasi.c is run in-process (ASan/UBSan) against a POSIX twin and the model on generated histories.",
+  "design_ref": "DESIGN.md §5 C12",
+  "note": "Hypotheses of fdio_refines_posix (GoodRun) are listed in Props/C12.lean; positional offsets beyond the file system's s_maxbytes are an OPEN known finding (known_findings.txt). Trusted: host POSIX calls behave as POSIX specifies; tools/extract/gen_wasi.py.",
+ },
+ "C13": {
+  "technique": "Lean 4 invariant proofs over the descriptor-table state machine (regenerated constants) + history correspondence with the real wasi.c under ASan/UBSan",
+  "text": "For every history of WASI calls on both ABIs: the descriptor table invariant holds (by induction over histories), closed or never-issued descriptors give EBADF for every implemented call (incl. fd_seek with any whence), descriptor numbers are never reused while open and never alias paths, std streams are preserved, preopens report their registered paths, and no call exhibits the modelled memory-safety UB kinds (double free / NULL deref) from any reachable state. The real code is driven with the same histories.",
+  "design_ref": "DESIGN.md §5 C13",
+  "note": "Trusted: host open/close/fstat as POSIX; tools/extract/gen_wasi.py; the model of the descriptor table is hand-written and tied by the correspondence.",
+ },
+ "C18": {
+  "technique": "Lean 4 linearizability proof of memory.grow over all interleavings of its lock/read/write steps (step list regenerated from w2c2_base.h) + scheduled real-thread correspondence",
+  "text": "The steps of wasmMemoryGrow are regenerated from the header; for ANY number of threads, deltas and interleavings every step list satisfying the decidable lock discipline (which the regenerated list is proved to satisfy) is linearizable: each grow returns the specification's value for some order consistent with real time, final size = initial + sum of successful deltas <= max, old sizes distinct. Real schedules (pthread interposition) are replayed against the model; a TSan run accompanies.",
+  "design_ref": "DESIGN.md §5 C18",
+  "note": "memory.size reads pages without the lock: benign data race, OPEN known finding. Trusted: pthread mutex semantics; realloc/calloc; tools/extract/gen_memfuncs.py.",
+ },
+ "C20": {
+  "technique": "Lean 4 theorems over the file-effect model of main()/clean (patterns, formats, call sites regenerated from main.c/c.c) + strace/snapshot correspondence of whole runs",
+  "text": "For every file-system state, listing, option set and module partition: the clean loop removes exactly the names matching the implementation-file pattern (s|d + 10 digits + .c) in the output directory, writes go only to the output file, its header, implementation files and (external data modes) `datasegments`, inputs are opened read-only, nothing else changes, and main's order (chdir before clean/write) is as extracted. Real runs under strace with before/after snapshots are compared with the model's event list and judged against the property directly.",
+  "design_ref": "DESIGN.md §5 C20",
+  "note": "Property read at name level: a pre-existing symlink at an output name is followed by fopen (counted in evidence, not a violation). Paths >= PATH_MAX are UB in the model (C10's domain). Trusted: glob(3), fopen modes, remove(3) per POSIX; tools/extract/gen_files.py.",
+ },
 }
 
 NOT_YET = {f"C{n:02d}": "check under construction in this round (model/theorems not yet committed); see DESIGN.md §8 build order" for n in range(1, 21)}
